@@ -515,24 +515,24 @@ class Interp:
                 return self.funcs[cn][0]
         return None
 
+    _SPAN = re.compile(r'\{(?:closure|async block|async closure|coroutine|async fn body)@([^}(]+?)(?: \(#\d+\))?\}')
     def _first_arg_index(self):
+        """closure / coroutine bodies keyed by the source span printed in their first parameter's type"""
         if getattr(self, '_fai', None) is None:
             self._fai = {}
             for name, fs in self.funcs.items():
                 if '{closure#' not in name: continue
                 for f in fs:
                     a = split_top(f.args)[0] if f.args.strip() else ''
-                    for m in re.finditer(r'\{(?:closure|async block|async closure|coroutine)@[^}]+\}', a):
-                        self._fai.setdefault(m.group(0), f)
+                    for m in self._SPAN.finditer(a):
+                        self._fai.setdefault(m.group(1).strip(), f)
         return self._fai
     def resolve_closure(self, clos_ty):
-        m = re.search(r'\{closure@[^}]+\}', clos_ty)
+        m = self._SPAN.search(clos_ty)
         if not m: return None
-        return self._first_arg_index().get(m.group(0))
+        return self._first_arg_index().get(m.group(1).strip())
     def resolve_async_block(self, ty):
-        m = re.search(r'\{(?:async block|coroutine)@[^}]+\}', ty)
-        if not m: return None
-        return self._first_arg_index().get(m.group(0))
+        return self.resolve_closure(ty)
 
     # ---- calls
     def push_call(self, st, func, args, ret_dest, ret_bb, on_return=None, tag=None, generics=None):
@@ -717,8 +717,10 @@ class Interp:
                     s = None; break
                 if s is not None and not s.frames:
                     self.stats['paths'] += 1; on_done(s)
-            except Stuck as e:
-                self.stats.setdefault('stuck', []).append((str(e), s.frames[-1].func.name if s.frames else '-', s.frames[-1].block if s.frames else '-'))
+            except (Stuck, AttributeError, KeyError, TypeError, IndexError, ValueError, z3.Z3Exception) as e:
+                if not isinstance(e, Stuck): e = Stuck('model/interpreter cannot handle this code shape: ' + repr(e)[:160])
+                top = next((f for f in reversed(s.frames) if getattr(f, 'func', None) is not None), None) if s is not None else None
+                self.stats.setdefault('stuck', []).append((str(e), top.func.name if top else '-', top.block if top else '-'))
 
 PUSHED = object()
 SKIP = object()
